@@ -1,6 +1,7 @@
 package main
 
 import (
+	"encoding/json"
 	"fmt"
 	"math"
 	"math/rand"
@@ -130,6 +131,29 @@ func init() {
 			return t
 		})
 		RunSpec(c, spec, c.Scale(3000, 100000))
+		if c.ReplayIn != "" {
+			return
+		}
+		// K2 probe: topk(1, …) over two series with the same value
+		k2 := MetricCase{E: MExpr{Kind: "vagg", Op: "topk", Param: "1", A: &MExpr{Kind: "range", Op: "count_over_time", RangeS: 10}},
+			Recs:  []LRec{{TS: mT0 * 1e9, Body: "x", Attrs: [][2]string{{"c", "one"}}}, {TS: mT0 * 1e9, Body: "x", Attrs: [][2]string{{"c", "two"}}}},
+			Start: mT0 * 1e9, End: mT0 * 1e9}
+		seen := map[string]int{}
+		for i := 0; i < 60; i++ {
+			r := metricImplOnce(k2)
+			if r.Err == "" && len(r.Series) == 1 {
+				seen[r.Series[0].Labels]++
+			} else {
+				seen["unexpected:"+r.Sexp().String()]++
+			}
+		}
+		c.Count(fmt.Sprintf("k2:distinct-answers=%d of 60 runs", len(seen)))
+		if len(seen) != 1 {
+			cj, _ := json.Marshal(k2)
+			c.Fail(Failure{Kind: "failing-input", Signature: "K2", What: "determinism of topk at a tie", Case: cj,
+				Request: k2.E.Text() + " over two series {c=one}, {c=two} with equal value, 60 runs",
+				Impl: fmt.Sprint(seen), Model: "Metric.vecStep keeps the first in arrival order; C11_topk_spec"})
+		}
 	}
 
 	props["C12"] = func(c *Ctx) {
